@@ -895,7 +895,10 @@ func handleMessage(peer *Peer, m protocol.Message) error {
 				m.Index, m.Begin, m.Data, peer.Counter)
 			protocol.PutBuffer(m.Data)
 			m.Data = nil
-			if n == uint32(length) {
+			// The request that was removed is for exactly one
+			// block; anything else (empty, short or over-long
+			// data) counts as a failed request.
+			if n == uint32(length) && n == chunkSize(peer, c) {
 				peer.download.Accumulate(length)
 				peer.avgDownload.Accumulate(length)
 				writeEvent(peer, TorData{peer,
